@@ -38,7 +38,7 @@ OPS = ["append", "append_with", "append_explicit", "multi", "delete_file", "dele
 MODES_LOCAL = ["lineint:KeyboardInterrupt", "lineint:SystemExit", "err:EIO", "err:ENOSPC", "err:EACCES", "diskfull", "shortwrite:0.5", "shortwrite:0.9", "int:KeyboardInterrupt", "int:SystemExit",
                "intafter:KeyboardInterrupt", "double:remove", "double:unflock", "double:marker"]
 MODES_S3 = ["lineint:KeyboardInterrupt", "err:InternalError*7", "err:InternalError*2", "err:AccessDenied", "err:EndpointConnectionError*7",
-            "errafter:InternalError", "errafter:EndpointConnectionError", "int:KeyboardInterrupt",
+            "errafter:InternalError", "errafter:EndpointConnectionError", "errafter:PreconditionFailed", "int:KeyboardInterrupt",
             "intafter:KeyboardInterrupt", "double:delete", "double:lockrelease"]
 
 
@@ -49,6 +49,8 @@ def gen(rng: random.Random, tier: str, idx: int) -> dict:
     name = OPS[idx % len(OPS)] if rng.random() < 0.6 else rng.choice(OPS)
     modes = MODES_LOCAL if backend == "local" else MODES_S3
     mode = rng.choice(modes)
+    if mode == "errafter:PreconditionFailed" and backend != "s3":
+        mode = "errafter:InternalError"      # no conditional requests without conditional writes
     setup: List[dict] = []
     for k in range(rng.randint(1, 3)):
         if rng.random() < 0.75:
@@ -121,7 +123,13 @@ def eligible(mode: str, steps: List[tuple]) -> List[int]:
             if op == "write":
                 out.append(st)
         elif kind == "errafter":
-            if op in ("put", "delete"):
+            if mode.endswith(":PreconditionFailed"):
+                # 412 after the effect: the SDK re-sent a CONDITIONAL put whose first attempt had landed (lost response)
+                # and the retry met its own write - only conditional requests can answer 412 (pointer and lock objects
+                # on the CAS backend; the caller filters the backend)
+                if op == "put" and cls in ("HINT", "LOCK"):
+                    out.append(st)
+            elif op in ("put", "delete"):
                 out.append(st)
         elif kind in ("int", "intafter"):
             out.append(st)
